@@ -7,6 +7,7 @@ import (
 	"os"
 	"os/exec"
 	"runtime"
+	"sort"
 	"strconv"
 	"strings"
 	"sync"
@@ -43,7 +44,18 @@ type FailureRec struct {
 // per process; GOMAXPROCS=1 makes the baton hand-off a cheap goroutine switch). In a worker
 // process it never returns.
 func Sharded(n int, runItem func(i int) ItemResult) []ItemResult {
-	if os.Getenv("VX_WORKER") != "" {
+	res, _ := ShardedBin("", "", n, runItem)
+	return res
+}
+
+// ShardedBin is Sharded with an explicit worker binary (e.g. the -race build of the same check)
+// and a worker group name: a worker only serves the group named in VX_WORKER. The second result
+// is the concatenated stderr of the workers (race detector reports).
+func ShardedBin(bin, group string, n int, runItem func(i int) ItemResult) ([]ItemResult, string) {
+	if group == "" {
+		group = "1"
+	}
+	if os.Getenv("VX_WORKER") == group {
 		in := bufio.NewScanner(os.Stdin)
 		out := bufio.NewWriter(os.Stdout)
 		for in.Scan() {
@@ -51,6 +63,7 @@ func Sharded(n int, runItem func(i int) ItemResult) []ItemResult {
 			if err != nil {
 				break
 			}
+			fmt.Fprintf(os.Stderr, "VX-ITEM %d\n", i)
 			r := runItem(i)
 			r.Index = i
 			b, _ := json.Marshal(r)
@@ -62,6 +75,10 @@ func Sharded(n int, runItem func(i int) ItemResult) []ItemResult {
 			}
 		}
 		os.Exit(0)
+	}
+	if os.Getenv("VX_WORKER") != "" {
+		// a worker of another group passing by (main runs the groups in sequence)
+		return nil, ""
 	}
 	workers := runtime.NumCPU()
 	if v := os.Getenv("VX_WORKERS"); v != "" {
@@ -76,6 +93,7 @@ func Sharded(n int, runItem func(i int) ItemResult) []ItemResult {
 	results := make([]ItemResult, n)
 	var mu sync.Mutex
 	var engineErr string
+	var stderrAll strings.Builder
 	next := 0
 	take := func() int {
 		mu.Lock()
@@ -91,11 +109,21 @@ func Sharded(n int, runItem func(i int) ItemResult) []ItemResult {
 		wg.Add(1)
 		go func(w int) {
 			defer wg.Done()
-			cmd := exec.Command(os.Args[0], os.Args[1:]...)
-			cmd.Env = append(os.Environ(), "VX_WORKER=1", "GOMAXPROCS=1")
+			exe := os.Args[0]
+			if bin != "" {
+				exe = bin
+			}
+			cmd := exec.Command(exe, os.Args[1:]...)
+			cmd.Env = append(os.Environ(), "VX_WORKER="+group, "GOMAXPROCS=1", "GORACE=halt_on_error=0")
 			stdin, _ := cmd.StdinPipe()
 			stdout, _ := cmd.StdoutPipe()
-			cmd.Stderr = os.Stderr
+			var errBuf strings.Builder
+			cmd.Stderr = &errBuf
+			defer func() {
+				mu.Lock()
+				stderrAll.WriteString(errBuf.String())
+				mu.Unlock()
+			}()
 			if err := cmd.Start(); err != nil {
 				mu.Lock()
 				engineErr = err.Error()
@@ -139,7 +167,10 @@ func Sharded(n int, runItem func(i int) ItemResult) []ItemResult {
 	if engineErr != "" {
 		results = append(results, ItemResult{Index: -1, EngineErr: engineErr})
 	}
-	return results
+	if bin == "" {
+		os.Stderr.WriteString(stderrAll.String())
+	}
+	return results, stderrAll.String()
 }
 
 // ExploreItem runs iterative deviation bounding 0..maxBound on one scenario and packs the result.
@@ -190,4 +221,75 @@ func ExploreItem(sc *Scenario, maxBound int, cfg Config) ItemResult {
 		}
 	}
 	return r
+}
+
+// RaceReport is one data race reported by the race detector in a worker.
+type RaceReport struct {
+	Item  int
+	Key   string // the first non-runtime function of each of the two stacks, sorted
+	Text  string
+	Inner bool // both sides are inside the given package prefixes
+}
+
+// ParseRaceReports extracts the race detector's reports from the workers' stderr. pkgs are the
+// import-path substrings that count as "code under test"; reports with a side whose first
+// non-runtime frame is elsewhere (harness code) are returned with Inner=false.
+func ParseRaceReports(stderr string, pkgs []string) []RaceReport {
+	var out []RaceReport
+	item := -1
+	lines := strings.Split(stderr, "\n")
+	for i := 0; i < len(lines); i++ {
+		l := lines[i]
+		if strings.HasPrefix(l, "VX-ITEM ") {
+			item, _ = strconv.Atoi(strings.TrimSpace(l[8:]))
+			continue
+		}
+		if !strings.HasPrefix(l, "WARNING: DATA RACE") {
+			continue
+		}
+		var text []string
+		var sides []string
+		j := i + 1
+		for ; j < len(lines) && !strings.HasPrefix(lines[j], "=================="); j++ {
+			text = append(text, lines[j])
+			t := lines[j]
+			if strings.Contains(t, " by goroutine ") && (strings.HasPrefix(t, "Read at") || strings.HasPrefix(t, "Write at") || strings.HasPrefix(t, "Previous read at") || strings.HasPrefix(t, "Previous write at") || strings.HasPrefix(t, "Atomic") || strings.HasPrefix(t, "Previous atomic")) {
+				// first non-runtime frame below
+				fn := "?"
+				for k := j + 1; k < len(lines) && strings.TrimSpace(lines[k]) != ""; k += 2 {
+					f := strings.TrimSpace(lines[k])
+					if strings.HasPrefix(f, "runtime.") || strings.HasPrefix(f, "internal/") {
+						continue
+					}
+					fn = strings.TrimSuffix(f, "()")
+					break
+				}
+				sides = append(sides, fn)
+			}
+		}
+		sort.Strings(sides)
+		inner := len(sides) == 2
+		for _, sd := range sides {
+			ok := false
+			for _, p := range pkgs {
+				if strings.Contains(sd, p) {
+					ok = true
+				}
+			}
+			if !ok {
+				inner = false
+			}
+		}
+		for k := range sides {
+			if idx := strings.LastIndex(sides[k], "/"); idx >= 0 {
+				sides[k] = sides[k][idx+1:]
+			}
+		}
+		if len(text) > 60 {
+			text = text[:60]
+		}
+		out = append(out, RaceReport{Item: item, Key: strings.Join(sides, "|"), Text: strings.Join(text, "\n"), Inner: inner})
+		i = j
+	}
+	return out
 }
